@@ -41,6 +41,12 @@ CHECKS = {
  "C12": ("exploration", "hostile-input workload (structured protobuf mutation + named invalid classes) in sacrificial child processes with a state-unchanged oracle (contents, hooked pending set and refcounts), crash detection by process exit and hang detection by watchdog + quiescent goroutine-dump classifier",
          "Child processes each send hundreds of mutated or deliberately invalid AFT operations (through the RIB API and through a Modify stream) and Get/Flush request variants to a populated server that also carries a bystander session; each input is logged before it is sent so that a crash names its input. Invalid classes must be FAILED (or a clean RPC error) with contents, held operations and reference counters unchanged; inputs of unknown validity must not crash or hang and must leave state unchanged when rejected.",
          "trusted: the class tags of the generator; only wire-representable inputs are sent; the process boundary is the crash detector", "4 C12"),
+ "C13": ("exploration", "conservation / exactly-once / convergence monitors over the real client library behind a scripted adversarial server (stub stream), with concurrent application, sampler and waiter goroutines; child processes with watchdog + proven-block classifier",
+         "The client library runs against a scripted server that answers with arbitrary delay, cross-id reordering, batching and interleaved election/session responses (per-id RIB before FIB respected), or violates the protocol (unknown id, duplicate terminal result). A sampler checks that every operation whose Q returned is pending or represented by a result, a waiter checks that AwaitConverged succeeds only when every operation queued before the call already has its terminal result on the stream (RIB acks never complete operations in FIB mode), and at quiescence each id has exactly one terminal result whose details match the queued operation.",
+         "trusted: the scripted server's own record of what it sent; terminal-status table; violations use statuses the client does not deliberately tolerate", "4 C13"),
+ "C14": ("fault_enumeration", "enumeration of stream faults (failing Send index x failing receive position x 8 status codes x burst size x Close/Reset) against the real client over a scripted stub stream, with watchdog + proven-block classifier and a goroutine census, in child processes",
+         "Every fault position of a scripted exchange on the send side and on the receive side, for eight gRPC status classes, is injected while the application queues a burst of further requests; each case then closes the client or resets, reconnects on a healthy stream and runs a further exchange. Every Q must return, Done must be signalled, AwaitConverged must return the recorded error, Close/Reset must return, no goroutine of the client package may survive, and the reset client must look fresh. A step that never returns is a violation only if two goroutine dumps prove the client permanently blocked.",
+         "trusted: the stub's model of the gRPC stream contract (Send returns EOF, status arrives through Recv)", "4 C14"),
  "C15": ("exploration", "round-trip oracle: reconciler operations applied one by one to a live target RIB with reference checking on, then canonical contents equality",
          "Generated pairs of reference-closed RIBs (independent, equal, intended-plus-overlay; target network instances a superset) are reconciled; the emitted operations are applied in the documented order to the live target, each must be acknowledged, and the target's contents must equal the intended contents in every network instance; ids must be base+1..base+n and equal RIBs must yield no operations. 1 in 10 pairs observe the target through a real Get RPC.",
          "trusted: canonicaliser; generator of closed RIBs", "4 C15"),
